@@ -271,6 +271,24 @@ Definition do_shutdown (n : nat) (w : world) : world * (N * ev2) :=
     let '(w2, o2) := after n (mkWorld (wa w) (mkW (w_nd (wb w)) (w_pconn (wb w)) false)) in (w2, (0, o2))
   else (w, (2, ([], []))).
 
+(* A dials B while protocol y of node x exits. Both orders are legitimate; the implementation's
+   choice comes in as an oracle: c = 0 the connection was accepted first, else c = 1 + 2*maskA +
+   256*maskB and the exit came first. The racing protocol's own observer is not printed (it may or
+   may not read its last events before it exits). *)
+Definition drop_obs (x : N) (y : nat) (o : ev2) : ev2 :=
+  let f := filter (fun p : obs => negb (fst p =? S y)%nat) in
+  if x =? 0 then (f (fst o), snd o) else (fst o, f (snd o)).
+
+Definition do_race (n : nat) (x : N) (y : nat) (c : N) (w : world) : world * (N * ev2) :=
+  if N.odd c then
+    let '(w1, (_, o1)) := do_drop n x y w in
+    let '(w2, (rc, o2)) := do_connect n ((c / 2) mod 128) (c / 256) w1 in
+    (w2, (rc, drop_obs x y (app2 o1 o2)))
+  else
+    let '(w1, (rc, o1)) := do_connect n 0 0 w in
+    let '(w2, (_, o2)) := do_drop n x y w1 in
+    (w2, (rc, drop_obs x y (app2 o1 o2))).
+
 Definition estep (n : nat) (w : world) (s : N * (N * (N * N))) : world * (N * ev2) :=
   let '(op, (a, (b, c))) := s in
   match op with
@@ -278,6 +296,7 @@ Definition estep (n : nat) (w : world) (s : N * (N * (N * N))) : world * (N * ev
   | 11 => do_connect n b c w
   | 12 => do_open n a (N.to_nat b) false w
   | 13 => do_open n a (N.to_nat b) true w
+  | 14 => do_race n a (N.to_nat b) c w
   | 15 => do_force n a (N.to_nat b) w
   | 16 => do_cut n w
   | 17 => do_idle n w
@@ -317,7 +336,9 @@ Definition p_estep : parser (N * (N * (N * N))) :=
 
 Definition decode_e2e (l : list N) : option (nat * (N * list (N * (N * (N * N))))) :=
   pall (let* n := pN in let* ka := pN in let* steps := plist p_estep in
-        if (1 <=? n) && (n <=? 4) then pret (N.to_nat n, (ka, steps)) else pfail) l.
+        (* ka: bit 0 = short keep-alive, bits 1-2 = transport (0 TCP, 1 WebSocket, 2 QUIC); the model
+           is the same for all of them *)
+        if (1 <=? n) && (n <=? 4) && (ka <? 6) then pret (N.to_nat n, (ka, steps)) else pfail) l.
 
 (* ------------------------------------------------------------------------------------------ *)
 
@@ -436,7 +457,7 @@ Definition estep_ok (n : nat) (p : pst) (s : N * (N * (N * N))) (rc : N) (la lb 
   match seqs_ok (fst (p_conn p)) la, seqs_ok (snd (p_conn p)) lb with
   | Some ca, Some cb =>
       let asked := negb (rc =? 2) in
-      let al1 := if ((op =? 10) || (op =? 13)) && asked then kill a y (p_al p) else p_al p in
+      let al1 := if (((op =? 10) || (op =? 13)) && asked) || (op =? 14) then kill a y (p_al p) else p_al p in
       let bup1 := if op =? 18 then false else p_bup p in
       let appa0 := hd false (fst (p_conn p)) in
       let appb0 := hd false (snd (p_conn p)) in
@@ -453,10 +474,11 @@ Definition estep_ok (n : nat) (p : pst) (s : N * (N * (N * N))) (rc : N) (la lb 
         (if bup1 then Bool.eqb appa appb else negb appa) &&
         (* the exit of one protocol, or a substream for it, closes nothing while another protocol
            of the node is still there *)
-        (if ((op =? 10) || (op =? 12) || (op =? 13)) && existsb (fun x => x) actor_al1
+        (if ((op =? 10) || (op =? 12) || (op =? 13) || (op =? 14)) && existsb (fun x => x) actor_al1
          then no_closed la && no_closed lb else true) &&
         (* a new connection is announced on both sides *)
-        (if (op =? 11) && p_bup p && negb appa0 && negb appb0 then (rc =? 0) && appa && appb else true) &&
+        (if ((op =? 11) || (op =? 14)) && p_bup p && negb appa0 && negb appb0
+         then (rc =? 0) && appa && appb else true) &&
         (* termination causes terminate *)
         (if ((op =? 15) && (rc =? 0)) || (op =? 16) || (op =? 17) || ((op =? 18) && (rc =? 0))
          then negb appa && (negb bup1 || negb appb) else true) in
@@ -532,8 +554,10 @@ Fixpoint e2e_in_class (n : nat) (w : world) (steps : list (N * (N * (N * N)))) :
   match steps with
   | [] => false
   | s :: r =>
-      ((fst s =? 11) && w_up (wa w) && w_up (wb w) &&
+      (((fst s =? 11) || (fst s =? 14)) && w_up (wa w) && w_up (wb w) &&
        negb (all_alive (nd_alive (w_nd (wa w))) && all_alive (nd_alive (w_nd (wb w))))) ||
+      (* the exit won the race against the accept *)
+      ((fst s =? 14) && w_up (wa w) && w_up (wb w) && N.odd (snd (snd (snd s)))) ||
       e2e_in_class n (fst (estep n w s)) r
   end.
 
